@@ -352,3 +352,11 @@ Proof.
   exists (fst (step init (CParseKeep wb_witness))). eexists. eexists.
   split; [apply reach_step, reach_init|]. split; [vm_compute; reflexivity|reflexivity].
 Qed.
+
+Example history_free_nonvacuous :
+  exists h c r, reachable h /\ file_call c = true /\ 0 < h_fresh h /\ snd (step init c) = ORendered r.
+Proof.
+  exists (fst (step init (CParseKeep wb_witness))), (CCreateFlows None wb_witness). eexists.
+  split; [apply reach_step, reach_init|]. split; [reflexivity|].
+  split; [apply Nat.ltb_lt; vm_compute; reflexivity|vm_compute; reflexivity].
+Qed.
